@@ -119,16 +119,6 @@ def _(M, a, c):
     return Agg('ControlFlow', 1, [Agg('Result', 1, [r.fields[0]])])
 @model_re(r'^<std::result::Result<.*> as FromResidual<.*>>::from_residual$')
 def _(M, a, c): return Agg('Result', 1, [a[0].fields[0]])
-@model_re(r'^<std::result::Result<.*> as ResultExt<.*>>::context$')
-def _(M, a, c):
-    r, sel = a
-    if r.variant == 0: return r
-    # wrapper variant named after the context selector type
-    m = re.search(r'::context::<([\w:]+)', c)
-    vname = m.group(1).split('::')[-1]
-    fields = [Native('Box', slot=[r.fields[0]])]
-    if isinstance(sel, Agg): fields += sel.fields
-    return err(Agg('Error', ENUMS['Error'].index(vname), fields))
 @model_re(r'^<\{closure@.*\} as Fn(Mut|Once)?<.*>>::call(_mut|_once)?$')
 def _(M, a, c):
     f = V(a[0]); args = a[1].fields
